@@ -12,6 +12,8 @@ use hxlib::util::{Args, Sink};
 
 pub const REQ: &str = "Common.Base Index.Model_ScanPlan";
 pub const CLASS_PUSHDOWN: &str = "limit_pushdown_skips_unguaranteed_rows";
+pub const CLASS_LIMIT0: &str = "limit_zero_ignored";
+pub const CLASS_ORDER_UNPROJ: &str = "order_by_unprojected_column";
 
 fn run(args: &Args) -> i32 {
     let mut sink = Sink::new("C16", &args.out);
